@@ -30,3 +30,33 @@ def variants(rng, body):
 ENCODED_TEXTS = [b"0xdeadbeef", b"0xdeadbeef\n", b"0xDEADBEEF", b"deadbeef", b"0x", b"0x\n", b"0xCAFE 00\n", b"0x00", b"0x0", b"0xzz",
                  b"3q2+7w==", b"3q2-7w", b"data:application/octet-stream;base64,3q2+7w==", b'{"a":1}', b'"quoted"', b"[1,2]", b"null", b"%41%42", b"\\x41\\x42",
                  b"&amp;&#65;", b"=?utf-8?B?3q2+7w==?=", b"-----BEGIN X-----\n3q2+7w==\n-----END X-----\n", b"\x1f\x8b\x08\x00", b"0b1010", b"0o17", b"1e3", b"\\u0041"]
+
+
+def text_like(rng, n):
+    """byte strings of EXACTLY n bytes that are binary data to the code under test but look like the text of an encoding:
+    hex digits (lower, upper, 0x-prefixed), decimal digits, base64 / base58 alphabets, printable ASCII, words and blanks,
+    a JSON string, percent-escapes, UTF-8 text, all-blank.  Returns [(bytes, tag)]."""
+    import base64
+    out = []
+    raw = bytes(rng.getrandbits(8) for _ in range(n))
+    hexs = (raw.hex() * 2)[:n]
+    cands = [("hex-lower", hexs), ("hex-upper", hexs.upper()), ("hex-0x", ("0x" + hexs)[:n]), ("hex-0X", ("0X" + hexs.upper())[:n]),
+             ("hex-mixed", "".join(c.upper() if rng.random() < 0.5 else c for c in hexs)),
+             ("decimal", "".join(rng.choice("0123456789") for _ in range(n))),
+             ("base64", (base64.b64encode(raw).decode() * 2)[:n]), ("base64-pad", (base64.b64encode(raw).decode()[: max(0, n - 2)] + "==")[:n]),
+             ("base58", "".join(rng.choice("123456789ABCDEFGHJKLMNPQRSTUVWXYZabcdefghijkmnopqrstuvwxyz") for _ in range(n))),
+             ("printable", "".join(chr(rng.randrange(0x21, 0x7f)) for _ in range(n))),
+             ("words", ("abandon ability able about above absent absorb abstract absurd abuse access accident " * 8)[:n]),
+             ("json-string", ('"' + hexs)[: max(0, n - 1)] + '"'), ("percent", ("%41%42%43" * n)[:n]), ("blank", " " * n), ("zeros-text", "0" * n), ("f-text", "f" * n),
+             ("newline-end", hexs[: max(0, n - 1)] + "\n")]
+    for tag, t in cands:
+        b = t.encode("ascii", "replace")
+        if len(b) == n:
+            out.append((b, "text-like:" + tag))
+    u = ("pässwörd é한글 " * n).encode("utf-8")
+    k = n
+    while k > 0 and (u[k] & 0xC0) == 0x80 if k < len(u) else False:
+        k -= 1
+    if n and len(u[:n].decode("utf-8", "ignore").encode("utf-8")) == n:
+        out.append((u[:n], "text-like:utf8"))
+    return out
